@@ -33,10 +33,12 @@ K_TAIL2 = "replicate:aggregator-mentions-replicated-ref-with-two-paths"
 
 
 def S(names, stages=(0,), reps=("none", "n2"), aggs=(True, False), spell=("rel", "abs"), paths=("",), methods=("ref",),
-      styles=("same",), orders=("fwd",), comps=3, refs=2, fixed=False, graph=1, priv=(0,), aggvar=(False,), sv0=(0,), sv1=(2,), same=1):
+      styles=("same",), orders=("fwd",), comps=3, refs=2, fixed=False, graph=1, priv=(0,), aggvar=(False,), sv0=(0,), sv1=(2,), same=1,
+      plat=(0,), pg=(0,), ps0=(0,), ps1=(0,)):
     """graph: 1 = every case also through graphFromFlowIR, k = every k-th case"""
     return dict(names=names, stages=stages, reps=reps, aggs=aggs, spell=spell, paths=paths, methods=methods, styles=styles,
-                orders=orders, comps=comps, refs=refs, fixed=fixed, graph=graph, priv=priv, aggvar=aggvar, sv0=sv0, sv1=sv1, same=same)
+                orders=orders, comps=comps, refs=refs, fixed=fixed, graph=graph, priv=priv, aggvar=aggvar, sv0=sv0, sv1=sv1, same=same,
+                plat=plat, pg=pg, ps0=ps0, ps1=ps1)
 
 
 SLICES = {
@@ -50,6 +52,10 @@ SLICES = {
         "vars": S(["p", "q"], stages=(0, 1), reps=ALL_REPS, spell=("abs",), comps=2, fixed=True),
         # variable scoping: the count / the aggregate flag through a variable that the own and the OTHER stage and SIBLING
         # components (same and other stage) define with other values; both roles for both names, both document orders
+        # platforms: the variable is layered over default global / default stage / platform global / platform stage (and the
+        # document holds the other platform's definitions also when the default platform is loaded)
+        "platform": S(["p", "q"], stages=(0, 1), reps=("none", "vg", "vs"), spell=("abs",), comps=2, refs=1, fixed=True,
+                      aggvar=(False, True), sv0=(0, 2), sv1=(0, 2), plat=(0, 1), pg=(0, 3), ps0=(0, 1), ps1=(0,), graph=2),
         "scopes": S(["p", "q"], stages=(0, 1), reps=("none", "vg", "vs", "vc"), spell=("abs",), comps=2, refs=1, fixed=True,
                     priv=(0, 1), aggvar=(False, True), sv0=(0, 1), sv1=(0, 2), orders=("fwd", "rev"), graph=4),
         "scopes3": S(["p", "q", "r"], stages=(0,), reps=("none", "vg", "vs"), aggs=(False,), spell=("rel",), refs=1, fixed=True,
@@ -87,6 +93,10 @@ SLICES = {
         "multi3m": S(["p", "q", "r"], spell=("rel",), methods=("ref", "copy", "output"), refs=3, fixed=True, same=2, graph=16),
         "multi3s": S(["p", "q", "r"], stages=(0, 1), refs=3, fixed=True, same=2, graph=8),
         "refs3": S(["a", "ba", "c"], paths=("", "out.txt"), styles=("same", "tail"), spell=("rel",), graph=16),
+        "platform": S(["p", "q"], stages=(0, 1), reps=("none", "vg", "vs", "vc"), spell=("abs",), comps=2, refs=1, fixed=True,
+                      aggvar=(False, True), sv0=(0, 2), sv1=(0, 2), plat=(0, 1), pg=(0, 1, 3), ps0=(0, 1), ps1=(0, 3), graph=4),
+        "platform3": S(["p", "q", "r"], stages=(0, 1), reps=("none", "vs"), spell=("abs",), refs=1, fixed=True,
+                       sv0=(0, 2), sv1=(0,), plat=(0, 1), pg=(0, 3), ps0=(0, 1), ps1=(0,), graph=8),
         "scopes": S(["p", "q"], stages=(0, 1), reps=("none", "n2", "vg", "vs", "vc"), spell=("abs",), comps=2, refs=1, fixed=True,
                     priv=(0, 1, 3), aggvar=(False, True), sv0=(0, 1), sv1=(0, 2, 3), orders=("fwd", "rev"), graph=2),
         "scopes3": S(["p", "q", "r"], stages=(0, 1), reps=("none", "vg", "vs"), aggs=(False,), spell=("abs",), refs=1, fixed=True,
@@ -114,11 +124,13 @@ def write_cfg(path, sl, emit, invariants, spec_props=""):
     body = ("CONSTANTS\n  Names = %s\n  Stages = %s\n  RepChoices = %s\n  AggChoices = %s\n  Spellings = %s\n  Paths = %s\n"
             "  Methods = %s\n  ArgStyles = %s\n  DocOrders = %s\n  MaxComps = %d\n  MaxRefs = %d\n  FixedNames = %s\n  Emit = %s\n"
             "  PrivChoices = %s\n  AggVarChoices = %s\n  StageVals0 = %s\n  StageVals1 = %s\n  MaxSame = %d\n"
+            "  Platforms = %s\n  PlatGlobalVals = %s\n  PlatStageVals0 = %s\n  PlatStageVals1 = %s\n"
             "SPECIFICATION Spec\n%sCHECK_DEADLOCK FALSE\n" % (
                 _set(sl["names"]), _set(sl["stages"]), _set(sl["reps"]), _set(sl["aggs"]), _set(sl["spell"]), _set(sl["paths"]),
                 _set(sl["methods"]), _set(sl["styles"]), _set(sl["orders"]), sl["comps"], sl["refs"],
                 "TRUE" if sl["fixed"] else "FALSE", "TRUE" if emit else "FALSE",
                 _set(sl["priv"]), _set(sl["aggvar"]), _set(sl["sv0"]), _set(sl["sv1"]), sl["same"],
+                _set(sl["plat"]), _set(sl["pg"]), _set(sl["ps0"]), _set(sl["ps1"]),
                 "".join("INVARIANT %s\n" % i for i in invariants)))
     with open(path, "w") as f:
         f.write(body)
@@ -178,6 +190,11 @@ def classify(case):
         feats.append("variable")
     if any(c.get("pv") for c in comps):
         feats.append("private-variables")
+    sv = list(case.get("sv") or []) + [0] * 6
+    if sv[2] == 1:
+        feats.append("platform")
+    elif any(sv[3:6]):
+        feats.append("other-platform-defined")
     if any(len({r[0] for r in c["r"]}) < len(c["r"]) for c in comps):
         feats.append("several-refs-to-one-producer")
     if any(c["g"] for c in comps):
@@ -263,7 +280,7 @@ def _show(t):
 
 
 def case_id(case):
-    return json.dumps([case["comps"], case["order"]], sort_keys=True)
+    return json.dumps([case["comps"], case["order"], case.get("sv")], sort_keys=True)
 
 
 def check_cases(chk, cases, graph_every, procs, label=""):
